@@ -580,19 +580,25 @@ func (c *FnCtx) hasStringField(t types.Type) bool {
 	return false
 }
 
-func (c *FnCtx) strEq(a, b string) string {
-	if !c.declSet["streq"] {
-		c.declSet["streq"] = true
+// String equality is equality of content.  strid(s) stands for the content of s (an
+// uninterpreted injection of contents into Int): two strings are equal iff their ids are;
+// the length is a function of the content, and the empty string has one id.
+func (c *FnCtx) strID(s string) string {
+	if !c.declSet["strid"] {
+		c.declSet["strid"] = true
 		c.decls = append(c.decls,
-			"(declare-fun streq (Str Str) Bool)",
-			"(assert (forall ((a Str)) (! (streq a a) :pattern ((streq a a)))))",
-			"(assert (forall ((a Str) (b Str)) (! (=> (streq a b) (and (streq b a) (= (str_len a) (str_len b)))) :pattern ((streq a b)))))",
-			"(assert (forall ((a Str) (b Str)) (! (=> (and (= (str_len a) 0) (= (str_len b) 0)) (streq a b)) :pattern ((streq a b)))))")
+			"(declare-fun strid (Str) Int)",
+			"(declare-fun sidlen (Int) Int)",
+			"(assert (forall ((a Str)) (! (and (= (str_len a) (sidlen (strid a))) (= (= (str_len a) 0) (= (strid a) 0))) :pattern ((strid a)))))")
 	}
+	return app("strid", s)
+}
+
+func (c *FnCtx) strEq(a, b string) string {
 	if a == b {
 		return "true"
 	}
-	return app("streq", a, b)
+	return eq(c.strID(a), c.strID(b))
 }
 
 func (c *FnCtx) strConcat(env *Env, l, r Val) Val {
@@ -1021,6 +1027,9 @@ func (c *FnCtx) fieldPath(env *Env, base Val, index []int, n ast.Node) Val {
 			if isOpaqueStruct(pt.Elem()) {
 				c.unsup(n, "field of external struct %s", pt.Elem())
 			}
+			if !env.spec {
+				c.guardedAccess(env, cur.T, pt.Elem(), st, st.Field(i), false, n)
+			}
 			cur = c.readField(env.st, cur.T, pt.Elem(), st.Field(i))
 			continue
 		}
@@ -1099,40 +1108,51 @@ func (c *FnCtx) indexVal(env *Env, base, idx Val, n ast.Node) Val {
 
 func (c *FnCtx) mapKeys(u *types.Map) (string, string, string, string) {
 	k := c.typeKey(u.Key()) + "__" + c.typeKey(u.Elem())
-	ks := c.sortOf(u.Key())
+	ks := c.mapKeySort(u.Key())
 	es := c.sortOf(u.Elem())
 	return "MD_" + k, "(Array Int (Array " + ks + " Bool))", "MV_" + k, "(Array Int (Array " + ks + " " + es + "))"
 }
 
 func (c *FnCtx) mapGet(env *Env, m, k Val, u *types.Map) (Val, string) {
 	dk, ds, vk, vs := c.mapKeys(u)
-	if isString(u.Key()) {
-		c.unsup(nil, "map with string keys")
-	}
+	kt := c.mapKeyTerm(k, u.Key())
 	dom := app("select", c.heapGet(env.st, dk, ds, nil), m.T)
 	vals := app("select", c.heapGet(env.st, vk, vs, nil), m.T)
-	ok := app("select", dom, k.T)
-	raw := app("select", vals, k.T)
+	ok := app("select", dom, kt)
+	raw := app("select", vals, kt)
 	c.assumeInv(env.st, raw, u.Elem())
 	return Val{T: ite(ok, raw, c.zero(u.Elem()).T), Typ: u.Elem()}, ok
 }
 
 func (c *FnCtx) mapSet(env *Env, m, k, v Val, u *types.Map, n ast.Node) {
 	dk, ds, vk, vs := c.mapKeys(u)
-	if isString(u.Key()) {
-		c.unsup(n, "map with string keys")
-	}
+	kt := c.mapKeyTerm(k, u.Key())
 	c.safe(env.st, "nilmap", not(eq(m.T, "0")), n)
 	domH := c.heapGet(env.st, dk, ds, nil)
 	valH := c.heapGet(env.st, vk, vs, nil)
-	c.heapSet(env.st, dk, app("store", domH, m.T, app("store", app("select", domH, m.T), k.T, "true")))
-	c.heapSet(env.st, vk, app("store", valH, m.T, app("store", app("select", valH, m.T), k.T, v.T)))
+	c.heapSet(env.st, dk, app("store", domH, m.T, app("store", app("select", domH, m.T), kt, "true")))
+	c.heapSet(env.st, vk, app("store", valH, m.T, app("store", app("select", valH, m.T), kt, v.T)))
 }
 
 func (c *FnCtx) mapDelete(env *Env, m, k Val, u *types.Map) {
 	dk, ds, _, _ := c.mapKeys(u)
 	domH := c.heapGet(env.st, dk, ds, nil)
-	c.heapSet(env.st, dk, app("store", domH, m.T, app("store", app("select", domH, m.T), k.T, "false")))
+	c.heapSet(env.st, dk, app("store", domH, m.T, app("store", app("select", domH, m.T), c.mapKeyTerm(k, u.Key()), "false")))
+}
+
+// maps keyed by strings are keyed by the strings' contents (strid)
+func (c *FnCtx) mapKeySort(kt types.Type) string {
+	if isString(kt) {
+		return "Int"
+	}
+	return c.sortOf(kt)
+}
+
+func (c *FnCtx) mapKeyTerm(k Val, kt types.Type) string {
+	if isString(kt) {
+		return c.strID(k.T)
+	}
+	return k.T
 }
 
 func (c *FnCtx) evalSlice(env *Env, x *ast.SliceExpr) Val {
@@ -1361,7 +1381,7 @@ func (c *FnCtx) makeMap(env *Env, t types.Type, u *types.Map) Val {
 	a := c.allocate(env.st, "8")
 	dk, ds, _, _ := c.mapKeys(u)
 	domH := c.heapGet(env.st, dk, ds, nil)
-	c.heapSet(env.st, dk, app("store", domH, a, fmt.Sprintf("((as const (Array %s Bool)) false)", c.sortOf(u.Key()))))
+	c.heapSet(env.st, dk, app("store", domH, a, fmt.Sprintf("((as const (Array %s Bool)) false)", c.mapKeySort(u.Key()))))
 	return Val{T: a, Typ: t}
 }
 
